@@ -119,6 +119,8 @@ theorem handleMetadataData_winv (m : M) (k i len : Nat) (g : Bool) (h : WInv m.1
     · exact hclose
     split
     · exact hclose
+    split
+    · exact hclose
     have hmap : ∀ g : IDl → IDl, WFrame m.1 { m.1 with idls := m.1.idls.map g } := by
       intro g
       refine WFrame.of_lists rfl rfl rfl rfl rfl rfl rfl rfl rfl rfl rfl (fun d hd => ⟨d, hd, rfl⟩) ?_
